@@ -169,7 +169,14 @@ pub fn generate(seed: u64, w: &World, with_big: bool, with_stalls: bool) -> Valu
     } else {
         json!({"kind": "json", "text": *rng.pick(&JSON_BODIES)})
     };
-    let script = if with_stalls && seed % (simcore::env_usize("VERIF_C20_STALL_MOD", 997) as u64) == 0 {
+    let script = if seed % (simcore::env_usize("VERIF_C20_SLOW_MOD", 499) as u64) == 1 {
+        // a slow but live server: 0.5-1.5 s before the first byte and between segments. The reply
+        // is good, so the run must succeed (real time; far below the client's 30 s timeout)
+        let mut r = reply(&mut rng, 200, served.clone(), true);
+        r["delay_ms"] = json!(*rng.pick(&[500u64, 900, 1500]));
+        r["segments"] = json!(rng.range(1, 3));
+        r
+    } else if with_stalls && seed % (simcore::env_usize("VERIF_C20_STALL_MOD", 997) as u64) == 0 {
         // the endpoint goes silent: nothing, a partial head, or a partial body, then no more bytes.
         // Real time: the client's own 30 s timeout has to end the run.
         let mut r = reply(&mut rng, 200, served.clone(), false);
@@ -522,7 +529,7 @@ fn build_reply(r: &Value, served_json: &dyn Fn(&Value) -> Vec<u8>) -> Built {
         let damage = if cut.is_some() { format!("cut-{}{}", framing, if rst { "-rst" } else { "-fin" }) } else if cl_delta < 0 { "content-length-short".into() } else if cl_delta > 0 { "content-length-long".into() } else { "intact".into() };
         format!("{}xx/{}/{}/{}", status / 100, bl, framing, damage)
     };
-    Built { behaviour: Behaviour::Reply { segments, rst }, meaning, class, cut_bucket: bucket }
+    Built { behaviour: Behaviour::Reply { segments, rst, delay_ms: r["delay_ms"].as_u64().unwrap_or(0) }, meaning, class: if r["delay_ms"].as_u64().unwrap_or(0) > 0 { format!("slow/{}", class) } else { class }, cut_bucket: bucket }
 }
 
 pub fn success_expected(m: &Meaning) -> bool {
